@@ -107,10 +107,10 @@ pub fn run(ctx: &mut Ctx) {
         extras: true,
         all_widths: false,
     };
-    ctx.meta("rule", "cases: (tree, subset of masters encoded with unknown size, marker width); trees = every forest over V up to the node bound + the deep spines; all 2^m subsets; encoded by RefEncoder (1- and 8-byte all-ones markers, and for trees of <= 5 elements every marker width 1..8; plus > 64 KiB documents with long headers at every alignment around the buffer boundary) and, independently, by the real TagWriter with write_advanced(unknown). Excluded by construction: a global element as the first element after an unknown-size master's last descendant. Trees of <= 5 elements are also parsed with each master id present, and all of them, buffered (Full items). Every encoding is also parsed with hierarchy problems / oversized children / everything tolerated (a valid document holds nothing to tolerate). Oracle: strict parse == flatten(tree) with RefEncoder offsets (Ends before the closing element), and == the all-known encoding's tags; with unknown ids tolerated, the same for every tree with one element of an id outside the specification put at every position (it is an ordinary child and ends nothing). Non-trivial: encodings where an unknown-size master is closed by something other than its own sibling.");
+    ctx.meta("rule", "cases: (tree, subset of masters encoded with unknown size, marker width); trees = every forest over V up to the node bound + the deep spines; all 2^m subsets; encoded by RefEncoder (1- and 8-byte all-ones markers, and for trees of <= 5 elements every marker width 1..8; plus > 64 KiB documents with long headers at every alignment around the buffer boundary) and, independently, by the real TagWriter with write_advanced(unknown). Excluded by construction: a global element as the first element after an unknown-size master's last descendant. Trees of <= 5 elements are also parsed with each master id present, and all of them, buffered (Full items). Trees of <= 4 elements are also read, end-of-stream closing off, from a source that pauses at one tag boundary and resumes (differential against the unpaused read). Every encoding is also parsed with hierarchy problems / oversized children / everything tolerated (a valid document holds nothing to tolerate). Oracle: strict parse == flatten(tree) with RefEncoder offsets (Ends before the closing element), and == the all-known encoding's tags; with unknown ids tolerated, the same for every tree with one element of an id outside the specification put at every position (it is an ordinary child and ends nothing). Non-trivial: encodings where an unknown-size master is closed by something other than its own sibling.");
     ctx.meta("bounds", &format!("forests <= {} elements over V (5 master levels), all subsets, devs <= {}", p.max_nodes, p.devs));
     ctx.meta("assumptions", "payload values irrelevant to closing decisions (default tiny payloads)");
-    for c in ["closed_by_sibling", "closed_by_element_one_level_up", "closed_by_element_two_or_more_levels_up", "closed_by_enclosing_known_size_end", "closed_by_end_of_input", "writer_encodings", "buffer_boundary_docs", "unknown_id_element_inside_unknown_size_encodings", "marker_widths_2_to_8", "parses_under_tolerance_switches", "parses_with_buffered_masters"] {
+    for c in ["closed_by_sibling", "closed_by_element_one_level_up", "closed_by_element_two_or_more_levels_up", "closed_by_enclosing_known_size_end", "closed_by_end_of_input", "writer_encodings", "buffer_boundary_docs", "unknown_id_element_inside_unknown_size_encodings", "marker_widths_2_to_8", "parses_under_tolerance_switches", "parses_with_buffered_masters", "parses_with_a_pause_at_a_tag_boundary"] {
         ctx.expect_nonzero(c);
     }
     let cfg = Cfg::strict();
@@ -215,6 +215,24 @@ fn sweep<T: SpecT>(ctx: &mut Ctx, rs: &RefSpec, plist: Vec<DocParams>, label: &s
                 let want_b = crate::c12::rollup_expect(&want, &set);
                 if o3.items != want_b || !o3.clean() {
                     ctx.violation("buffered/differs-from-tree", &d, &format!("buffered={:x?} bytes={} expected [{}] observed {}", set, hex(&bytes), want_b.iter().map(|(i, o)| format!("{}@{}", i.short(), o)).collect::<Vec<_>>().join(" "), o3.short()));
+                    break;
+                }
+            }
+        }
+        // a source that pauses (Ok(0) until the caller has seen None) at a tag boundary and then goes on, end-of-stream
+        // closing off: where unknown-size masters end does not depend on the pause (V only: the pause driver is C04's)
+        if raw_variants && !d28 && gen::count_nodes(doc) <= 4 {
+            let mut ncfg = cfg.clone();
+            ncfg.eof_end = false;
+            let reference = parse_slice::<V>(&bytes, &ncfg);
+            for l in lay.iter().skip(1) {
+                let (o4, seen) = crate::c04::drive_pauses(&bytes, &ncfg, &[l.tag_start], usize::MAX);
+                ctx.transitions += o4.items.len() as u64 + 2;
+                if seen > 0 {
+                    ctx.count("parses_with_a_pause_at_a_tag_boundary", 1);
+                }
+                if o4 != reference {
+                    ctx.violation("pause-at-a-tag-boundary-changes-where-masters-end", &d, &format!("pause at {} bytes={} without pause {} | with pause {}", l.tag_start, hex(&bytes), reference.short(), o4.short()));
                     break;
                 }
             }
